@@ -37,13 +37,14 @@ class C02(SCheck):
         ops = [gen.d_op("aux")]
         nsrc = r.choice([1, 1, 1, 2, 3])
         hist = r.random() < 0.35
+        relink = hist and r.random() < 0.35  # histories in which a source link is retargeted between two copies
         fcap = 3000 if bs < 64 else 20000
         srcs = []
         kinds = []
         for i in range(nsrc):
             name = ["src", "s two", "t3"][i]
             if r.random() < 0.7:
-                ops += gen.small_tree(r, name, links=not hist, odd_names=r.random() < 0.4, specials=(not hist) and r.random() < 0.1,
+                ops += gen.small_tree(r, name, links=(not hist) or relink, odd_names=r.random() < 0.4, specials=(not hist) and r.random() < 0.1,
                                       sizes=lambda rr: gen.boundary_size(rr, bs, cap=fcap), bs=bs)
                 kinds.append("d")
             else:
@@ -56,6 +57,7 @@ class C02(SCheck):
         elif r.random() < 0.3:
             flags["r"] = True
         dstate = r.choice(["absent", "file", "empty", "populated", "populated"]) if nsrc == 1 else r.choice(["empty", "populated"])
+        dest_link = dstate in ("empty", "populated") and r.random() < 0.15  # the destination is a symbolic link to the directory
         steps = []
         if dstate == "file" and kinds[0] == "f":
             ops.append(gen.f_op("dst", r.randrange(0, 3000), pat=5))
@@ -85,6 +87,15 @@ class C02(SCheck):
             # patterns over top-level names: literal or with a wildcard that matches exactly the intended source
             sp_srcs = [s.replace("src", "sr?") if s == "src" else s for s in srcs]
         dest = spell(r, "dst", "aux", dstate in ("empty", "populated"))
+        if dest_link:
+            # cp's rule follows the link: the sources land in <real directory>/<basename>
+            for op in ops:
+                for k in ("p",):
+                    if op.get(k) == "dst" or str(op.get(k, "")).startswith("dst/"):
+                        op[k] = "realdst" + op[k][3:]
+                if op.get("op") == "symlink" and str(op.get("to", "")) == "keep":
+                    pass
+            ops.append(gen.l_op("dst", r.choice(["realdst", "$ROOT/realdst", "aux/../realdst"])))
         inv = gen.mk_inv(sp_srcs, dest, driver=driver, workers=workers, block_size=bs, **flags)
         steps.append({"inv": inv})
         # history: re-copy after edits
@@ -95,6 +106,10 @@ class C02(SCheck):
                 for s, k in zip(srcs, kinds):
                     if k == "d":
                         edits.append(gen.f_op("%s/new%d" % (s, j), r.randrange(0, fcap), pat=r.randrange(1, 1 << 30)))
+                        if relink:
+                            for lop in [o for o in ops if o.get("op") == "symlink" and o["p"].startswith(s + "/")][:2]:
+                                edits.append({"op": "rm", "p": lop["p"]})
+                                edits.append(gen.l_op(lop["p"], r.choice(["new%d" % j, "f1", "../aux", "gone%d" % j])))
                         if r.random() < 0.3:
                             # a file of the previous copy becomes an empty directory in the source
                             edits.append({"op": "rm", "p": "%s/new%d" % (s, j - 1)} if j > 0 else gen.d_op("%s/kd%d" % (s, j)))
